@@ -202,6 +202,26 @@ def native_replay(pid, overlay, names, replay_dir, gen, timeout_s=300):
         res[f] = json.load(open(nf)) if os.path.exists(nf) else None
     res["_log"] = r.stdout[-4000:]
     res["_rc"] = r.returncode
+    # data races reported by the engine's happens-before detector: ask the Go race detector
+    # (go test -race) about the same harness instance; it needs both accesses to occur in one
+    # native run, so a few repetitions are tried and the outcome is recorded, not required
+    racy = [f for f in files if json.load(open(f)).get("fails", "").startswith("data-race")][:3]
+    for f in racy:
+        one = os.path.join(gen, "race-one")
+        shutil.rmtree(one, ignore_errors=True)
+        os.makedirs(one)
+        shutil.copy(f, one)
+        verdict = "not reproduced by go test -race in 5 runs"
+        for attempt in range(5):
+            rr = sh(["timeout", "240", "go", "test", "-race", "-vet=off", "-count=1", "-run", "^TestVerifReplay$", "-overlay", ovf] + pkgs,
+                    cwd=REPO, env=dict(GOENV, VERIF_REPLAY_DIR=one), stdout=subprocess.PIPE, stderr=subprocess.STDOUT, text=True)
+            if "WARNING: DATA RACE" in rr.stdout:
+                m = re.search(r"WARNING: DATA RACE\n(.*?)\n\n", rr.stdout, re.S)
+                verdict = "confirmed by go test -race (run %d)" % (attempt + 1)
+                res.setdefault("_race", {})[f] = {"verdict": verdict, "report": (m.group(1) if m else "")[:1500]}
+                break
+        else:
+            res.setdefault("_race", {})[f] = {"verdict": verdict, "report": ""}
     return res
 
 
@@ -302,6 +322,11 @@ def run_check(pid, tier):
             # found under the symbolic scheduler: depends on the interleaving, which the native Go
             # scheduler will not reproduce on demand; reported with the schedule the engine found
             ok = True
+            rv = (native.get("_race") or {}).get(f)
+            if rv:
+                r_["go_race_detector"] = rv
+                json.dump(r_, open(f, "w"), indent=1)
+                label = r_["fails"] + " [" + rv["verdict"] + "]"
         if n is not None and not ok:
             if label.startswith("panic-escaped"):
                 ok = n["panic"].startswith("panic:")
@@ -365,9 +390,9 @@ def run_check(pid, tier):
 
 
 def summarize(out):
-    s = {"paths": 0, "queries": 0, "solver_s": 0.0, "asserts": {}, "instrs": 0, "obligations": 0, "xchecked": 0, "xagree": 0, "xunknown": 0}
+    s = {"paths": 0, "queries": 0, "solver_s": 0.0, "asserts": {}, "instrs": 0, "obligations": 0, "xchecked": 0, "xagree": 0, "xunknown": 0, "retries": 0, "retries_decided": 0}
     for jo in out["jobs"]:
-        for k in ("xchecked", "xagree", "xunknown"):
+        for k in ("xchecked", "xagree", "xunknown", "retries", "retries_decided"):
             s[k] += jo.get(k, 0)
         s["paths"] += jo["paths"]
         s["queries"] += jo["queries"]
@@ -408,7 +433,8 @@ def write_evidence(pid, tier, seed, t0, jobs, out, confirmed, known_hits, undeci
             "paths": s["paths"], "solver_queries": s["queries"], "solver_time_s": round(s["solver_s"], 2),
             "ssa_instructions_executed": s["instrs"], "overflow_obligations_discharged": s["obligations"],
             "assertion_evaluations": s["asserts"],
-            "solver": "z3 4.8.12 (z3 -in, incremental push/pop; fresh process for contexts >= 600 lines)",
+            "solver": "z3 4.8.12 (z3 -in -t:20000, incremental push/pop; fresh process for contexts >= 600 lines); a query answered unknown is re-decided by a fresh z3 4.8.12 and then z3 5.1.0 with a 120 s limit",
+            "timeouts_retried": {"retried": s["retries"], "decided_on_retry": s["retries_decided"]},
             "cross_solver_validation": {"rule": "the 5th, the 50th and every N-th decided query (N = GOSYM_XCHECK, default 400 quick / 150 thorough, counted per harness instance) is written out as a stand-alone SMT-LIB2 script and re-decided by z3 5.1.0 (z3-new) and cvc5 1.0; sat-vs-unsat disagreement makes the run UNDECIDED and keeps the script under out/xsolver/",
                                         "solver_runs": s["xchecked"], "agree": s["xagree"], "other_solver_unknown_or_timeout": s["xunknown"], "disagree": s["xchecked"] - s["xagree"] - s["xunknown"]},
             "exhaustive": all(jo["exhausted"] for jo in out["jobs"]),
